@@ -63,6 +63,8 @@ func lookup(name string) *big.Int {
 	v := new(big.Int)
 	if s, ok := vals[key]; ok {
 		v.SetString(s, 10)
+	} else if d := os.Getenv("VERIF_DEFAULT"); d != "" {
+		v.SetString(d, 10) // concrete-mode smoke runs
 	}
 	return v
 }
@@ -103,6 +105,11 @@ func Assert(label string, c bool) {
 		fmt.Printf("VERIF-ASSERT-FAILED %s\n", label)
 	}
 }
+
+// Observe is an obligation like Assert, but the path continues unconstrained
+// whatever its verdict (used where a recorded known finding would otherwise cut
+// the path short).
+func Observe(label string, c bool) { Assert(label, c) }
 
 func Reach(label string) {
 	mu.Lock()
